@@ -1,7 +1,128 @@
-(* C09 — placeholder while the proofs are being written (plugin not ready). *)
-From Coq Require Import List ZArith.
-Require Import MTX.Model.C09_Env.
+(* C09 — Environment overrides are equivalent to file values.
+   Only statements here; every proof is `exact <lemma of Proofs/C09_*.v>`.
+
+   load_env OR false t E p d   the loader (env.Load(p, &d)) of Model/C09_Env.v on a value d of type t; OR are the
+                               text -> value functions of the Unmarshaler types and of strconv.ParseFloat
+   env_of OR t p v             the canonical variables that spell v at prefix p
+   below p E                   the variables of E named p or p_...
+   wf_ty / wt / expressible / dom / field_rel : Model/C09_EnvSpec.v (booleans; what they exclude is listed in
+                               design_notes/C09.md) *)
+From Coq Require Import List ZArith Bool.
+Require Import MTX.Model.C09_Env MTX.Model.C09_EnvSpec MTX.Model.C09_Lit.
+Require Import MTX.Proofs.C09_Thms MTX.Proofs.C09_Real MTXGen.C09_EnvSchema.
 Import ListNotations.
-Theorem C09_stub : dec 0 = [48%Z].
-Proof. reflexivity. Qed.
-Print Assumptions C09_stub.
+Local Open Scope Z_scope.
+
+(* A value written as variables loads as that value: for every well-formed type, every expressible value v, every
+   previous (file) value d that v dominates, and every environment whose variables below p are the canonical
+   spelling of v — whatever the environment contains elsewhere. *)
+Theorem C09_env_equiv : forall (OR : oracles) t E p d v,
+  wf_ty t = true -> is_ptr t = false -> wt t v = true -> wt t d = true ->
+  expressible OR t v = true -> dom OR t d v = true ->
+  below p E = env_of OR t p v ->
+  load_env OR false t E p d = Ok v.
+Proof. exact env_equiv. Qed.
+Print Assumptions C09_env_equiv.
+
+Theorem C09_env_equiv_exact : forall (OR : oracles) t p d v,
+  wf_ty t = true -> is_ptr t = false -> wt t v = true -> wt t d = true ->
+  expressible OR t v = true -> dom OR t d v = true ->
+  load_env OR false t (env_of OR t p v) p d = Ok v.
+Proof. exact env_equiv_exact. Qed.
+Print Assumptions C09_env_equiv_exact.
+
+(* A variable that is set wins over the file's value, an unset one leaves the file's value: field by field of any
+   struct (field_rel: per field either no variable below its name and the file's value, or the canonical
+   variables of an expressible value). *)
+Theorem C09_env_overrides_file : forall (OR : oracles) fs E p dvs vs,
+  wf_fields fs = true -> wts fs dvs = true -> field_rel OR fs E p dvs vs ->
+  load_env OR false (TStruct fs) E p (VStruct dvs) = Ok (VStruct vs).
+Proof. exact struct_pointwise. Qed.
+Print Assumptions C09_env_overrides_file.
+
+Theorem C09_unset_keeps_file : forall (OR : oracles) t E p d,
+  wf_ty t = true -> wt t d = true -> below p E = [] -> load_env OR false t E p d = Ok d.
+Proof. exact unset_keeps_file. Qed.
+Print Assumptions C09_unset_keeps_file.
+
+(* Variables with other prefixes change nothing (for every type, environment and value, even ill-typed ones). *)
+Theorem C09_unrelated_untouched : forall (OR : oracles) t E E' p d,
+  below p E = below p E' -> load_env OR false t E p d = load_env OR false t E' p d.
+Proof. exact unrelated_untouched. Qed.
+Print Assumptions C09_unrelated_untouched.
+
+(* The schema generated from the REAL conf.Conf on this run satisfies the side conditions ... *)
+Theorem C09_real_schema_covered : wf_ty conf_ty = true.
+Proof. exact real_schema_wf. Qed.
+Print Assumptions C09_real_schema_covered.
+
+(* ... so the theorems hold for conf.Load's call env.Load("MTX", conf). *)
+Theorem C09_real_conf_equiv : forall (OR : oracles) E d v,
+  wt conf_ty v = true -> wt conf_ty d = true -> expressible OR conf_ty v = true -> dom OR conf_ty d v = true ->
+  below MTX E = env_of OR conf_ty MTX v ->
+  load_env OR false conf_ty E MTX d = Ok v.
+Proof. exact real_conf_equiv. Qed.
+Print Assumptions C09_real_conf_equiv.
+
+Theorem C09_real_conf_overrides_file : forall (OR : oracles) E dvs vs,
+  wts f_Conf dvs = true -> field_rel OR f_Conf E MTX dvs vs ->
+  load_env OR false conf_ty E MTX (VStruct dvs) = Ok (VStruct vs).
+Proof. exact real_conf_pointwise. Qed.
+Print Assumptions C09_real_conf_overrides_file.
+
+(* The code as pinned (sub-key probe of an Unmarshaler parameter without the "_" separator; repaired by the fix:
+   commit 9cf7e78) violated "unset keeps the file's value": MTX_AUTHMETHODS=basic made authMethod fail. *)
+Theorem C09_pinned_refuted :
+  exists OR t E p d, wf_ty t = true /\ wt t d = true /\ below p E = [] /\
+    load_env OR true t E p d <> Ok d /\ load_env OR false t E p d = Ok d.
+Proof. exact pinned_refuted. Qed.
+Print Assumptions C09_pinned_refuted.
+
+(* ---- non-vacuity: a small schema with every kind, a value, a previous value, and an environment ---- *)
+Definition exO : oracles :=
+  {| cparse := fun _ s => match s with [] => None | _ => Some s end; ctext := fun _ c => c; czero := fun _ => [];
+     fparse := fun s => Some s; fzero := [48] |}.
+Definition s (l : list Z) : str := l.
+Definition ex_user : fields := fl [(s [117;115;101;114], TStr); (s [110], TInt)].                       (* user, n *)
+Definition ex_path : fields := fl [(s [115;111;117;114;99;101;44;111;109;105;116;101;109;112;116;121], TPtr TStr);    (* source,omitempty *)
+                                   (s [114;101;99;111;114;100;44;111;109;105;116;101;109;112;116;121], TPtr TBool)].  (* record,omitempty *)
+Definition ex_fs : fields :=
+  fl [(s [108;111;103;76;101;118;101;108], TCustom 0);                                                   (* logLevel *)
+      (s [114;116;111;44;111;109;105;116;101;109;112;116;121], TPtr (TCustom 1));                        (* rto,omitempty *)
+      (s [97;112;105], TBool); (s [104;111;115;116;115], TStrs); (s [112;111;114;116;115], TUints);     (* api hosts ports *)
+      (s [103;97;105;110], TFloat);                                                                      (* gain *)
+      (s [117;115;101;114;115], TStructs ex_user);                                                       (* users *)
+      (s [112;97;116;104;115], TMap (THook ex_path))].                                                   (* paths *)
+Definition ex_v : value :=
+  VStruct (vl [VCustom [100]; VPtr (Some (VCustom [49;115])); VBool true; VStrs (Some [[97]; [98;99]]); VUints (Some [8554; 0]);
+               VFloat [48;46;53];
+               VStructs (Some (vl [VStruct (vl [VStr [97;44;98]; VInt (-7)]); VStruct (vl [VStr []; VInt 2147483647])]));
+               VMap (Some (ml [([99;97;109], VPtr (Some (VHook (Some (vl [VPtr (Some (VStr [120])); VPtr None])))));
+                               ([126;94;120], VPtr (Some (VHook (Some (vl [VPtr None; VPtr (Some (VBool false))])))))]))]).
+Definition ex_d : value :=   (* a "file" value with fewer list items / map entries / optional parameters *)
+  VStruct (vl [VCustom [105]; VPtr None; VBool false; VStrs None; VUints (Some [1]); VFloat [49];
+               VStructs (Some (vl [VStruct (vl [VStr [122]; VInt 1])]));
+               VMap (Some (ml [([99;97;109], VPtr (Some (VHook (Some (vl [VPtr (Some (VStr [111;108;100])); VPtr None])))))]))]).
+Definition ex_junk : env := [([77;84;88;88;95;65;80;73], [110;111]); ([88;77;84;88;95;65;80;73], [110;111])].   (* MTXX_API=no XMTX_API=no *)
+
+Example C09_example :
+  wf_ty (TStruct ex_fs) = true /\ wt (TStruct ex_fs) ex_v = true /\ wt (TStruct ex_fs) ex_d = true /\
+  expressible exO (TStruct ex_fs) ex_v = true /\ dom exO (TStruct ex_fs) ex_d ex_v = true /\
+  length (env_of exO (TStruct ex_fs) MTX ex_v) = 12%nat /\
+  below MTX (ex_junk ++ env_of exO (TStruct ex_fs) MTX ex_v) = env_of exO (TStruct ex_fs) MTX ex_v /\
+  load_env exO false (TStruct ex_fs) (ex_junk ++ env_of exO (TStruct ex_fs) MTX ex_v) MTX ex_d = Ok ex_v /\
+  load_env exO false (TStruct ex_fs) ex_junk MTX ex_d = Ok ex_d.
+Proof. vm_compute. repeat split. Qed.
+
+(* what expressible / dom exclude, on the same schema: a map key with '_', a string list with ',' in an item,
+   the list [""] , an int beyond 32 bits, and a previous list that is longer than the new one *)
+Example C09_exclusions :
+  key_ok [109;121;95;112] = false /\ key_ok [67;97;109] = false /\
+  expressible exO TStrs (VStrs (Some [[97;44;98]])) = false /\ expressible exO TStrs (VStrs (Some [[]])) = false /\
+  expressible exO TInt (VInt 2147483648) = false /\
+  dom exO (TStructs ex_user) (VStructs (Some (vl [VStruct (vl [VStr []; VInt 0]); VStruct (vl [VStr []; VInt 0])])))
+                             (VStructs (Some (vl [VStruct (vl [VStr [97]; VInt 1])]))) = false /\
+  load_env exO false (TStructs ex_user) [([80;95;48;95;85;83;69;82], [97]); ([80;95;48;95;78], [49])] [80]
+           (VStructs (Some (vl [VStruct (vl [VStr []; VInt 0]); VStruct (vl [VStr [122]; VInt 5])])))
+    = Ok (VStructs (Some (vl [VStruct (vl [VStr [97]; VInt 1]); VStruct (vl [VStr [122]; VInt 5])]))).
+Proof. vm_compute. repeat split. Qed.
